@@ -122,6 +122,8 @@ pub struct DynAcc {
     raw_writes: Vec<Res>,
     /// really borrow during fetch (switched on only for the runs that look for sibling-caused borrow panics)
     on: Arc<AtomicBool>,
+    /// set for systems that do NOT override System::setup: their setup is the setup of their system data (logged here)
+    data_setup: Option<(Arc<Ctx>, usize)>,
 }
 impl Accessor for DynAcc {
     fn try_new() -> Option<Self> {
@@ -152,7 +154,11 @@ pub struct DynData<'a> {
 }
 impl<'a> DynamicSystemData<'a> for DynData<'a> {
     type Accessor = DynAcc;
-    fn setup(_: &DynAcc, _: &mut World) {}
+    fn setup(acc: &DynAcc, _: &mut World) {
+        if let Some((ctx, uid)) = &acc.data_setup {
+            ctx.ev(EvK::Setup, *uid);
+        }
+    }
     fn fetch(acc: &DynAcc, world: &'a World) -> Self {
         let mut held = vec![];
         let mut done: Vec<Res> = vec![];
@@ -199,7 +205,7 @@ pub struct LogSys {
 impl LogSys {
     /// (used by the par/seq and async oracles: declares, but their worlds hold no such resources, so nothing is borrowed)
     pub fn new(uid: usize, reads: Vec<ResourceId>, writes: Vec<ResourceId>, rt: u8, ctx: Arc<Ctx>) -> LogSys {
-        LogSys { uid, acc: DynAcc { reads, writes, raw_reads: vec![], raw_writes: vec![], on: ctx.real_borrow.clone() }, rt, ctx }
+        LogSys { uid, acc: DynAcc { reads, writes, raw_reads: vec![], raw_writes: vec![], on: ctx.real_borrow.clone(), data_setup: None }, rt, ctx }
     }
 }
 
@@ -231,6 +237,74 @@ impl<'a> System<'a> for LogSys {
     }
     fn dispose(self, _: &mut World) {
         self.ctx.ev(EvK::Dispose, self.uid);
+    }
+}
+
+/// like LogSys, but it relies on the provided `System::setup` (= the setup of its system data through `self.accessor()`)
+pub struct LogSys2(LogSys);
+impl<'a> System<'a> for LogSys2 {
+    type SystemData = DynData<'a>;
+    fn run(&mut self, data: DynData<'a>) {
+        <LogSys as System<'a>>::run(&mut self.0, data)
+    }
+    fn running_time(&self) -> RunningTime {
+        rt_of(self.0.rt)
+    }
+    fn accessor<'b>(&'b self) -> AccessorCow<'a, 'b, Self> {
+        AccessorCow::Ref(&self.0.acc)
+    }
+    fn dispose(self, _: &mut World) {
+        self.0.ctx.ev(EvK::Dispose, self.0.uid);
+    }
+}
+
+/// an accessor type that HAS a default (no dependencies) on a system that nevertheless overrides `accessor()` with
+/// per-instance ids: whoever asks the type instead of the system gets the empty lists
+pub struct DynAccD {
+    reads: Vec<ResourceId>,
+    writes: Vec<ResourceId>,
+}
+impl Accessor for DynAccD {
+    fn try_new() -> Option<Self> {
+        Some(DynAccD { reads: vec![], writes: vec![] })
+    }
+    fn reads(&self) -> Vec<ResourceId> {
+        self.reads.clone()
+    }
+    fn writes(&self) -> Vec<ResourceId> {
+        self.writes.clone()
+    }
+}
+pub struct DynDataD;
+impl<'a> DynamicSystemData<'a> for DynDataD {
+    type Accessor = DynAccD;
+    fn setup(_: &DynAccD, _: &mut World) {}
+    fn fetch(_: &DynAccD, _: &'a World) -> Self {
+        DynDataD
+    }
+}
+pub struct LogSysD {
+    uid: usize,
+    acc: DynAccD,
+    ctx: Arc<Ctx>,
+}
+impl LogSysD {
+    pub fn new(uid: usize, reads: Vec<ResourceId>, writes: Vec<ResourceId>, ctx: Arc<Ctx>) -> LogSysD {
+        LogSysD { uid, acc: DynAccD { reads, writes }, ctx }
+    }
+}
+impl<'a> System<'a> for LogSysD {
+    type SystemData = DynDataD;
+    fn run(&mut self, _: DynDataD) {
+        self.ctx.ev(EvK::Enter, self.uid);
+        self.ctx.hold(self.uid);
+        self.ctx.ev(EvK::Exit, self.uid);
+    }
+    fn accessor<'b>(&'b self) -> AccessorCow<'a, 'b, Self> {
+        AccessorCow::Ref(&self.acc)
+    }
+    fn setup(&mut self, _: &mut World) {
+        self.ctx.ev(EvK::Setup, self.uid);
     }
 }
 
@@ -296,23 +370,36 @@ plan_ctl!(Plan2, Write<'c, R0>);
 plan_ctl!(Plan3, Write<'c, R1>);
 
 /// a whole dispatcher used as one thread-local system of another one: everything goes through Dispatcher's RunNow impl
+pub enum Nested {
+    Full(Dispatcher<'static, 'static>),
+    Sendable(shred::SendDispatcher<'static>),
+}
 pub struct NestSys {
     uid: usize,
     ctx: Arc<Ctx>,
-    d: Dispatcher<'static, 'static>,
+    d: Nested,
 }
 impl<'a> RunNow<'a> for NestSys {
     fn run_now(&mut self, world: &'a World) {
         self.ctx.ev(EvK::Enter, self.uid);
-        RunNow::run_now(&mut self.d, world);
+        match &mut self.d {
+            Nested::Full(d) => RunNow::run_now(d, world),
+            Nested::Sendable(d) => RunNow::run_now(d, world),
+        }
         self.ctx.ev(EvK::Exit, self.uid);
     }
     fn setup(&mut self, world: &mut World) {
-        RunNow::setup(&mut self.d, world);
+        match &mut self.d {
+            Nested::Full(d) => RunNow::setup(d, world),
+            Nested::Sendable(d) => RunNow::setup(d, world),
+        }
     }
     fn dispose(self: Box<Self>, world: &mut World) {
         let me = *self;
-        RunNow::dispose(Box::new(me.d), world);
+        match me.d {
+            Nested::Full(d) => RunNow::dispose(Box::new(d), world),
+            Nested::Sendable(d) => RunNow::dispose(Box::new(d), world),
+        }
     }
 }
 
@@ -502,6 +589,7 @@ fn mk_sys(s: &SysSpec, uid: usize, ctx: &Arc<Ctx>) -> LogSys {
             raw_reads: s.reads.clone(),
             raw_writes: s.writes.clone(),
             on: ctx.real_borrow.clone(),
+            data_setup: None,
         },
         rt: s.rt,
         ctx: ctx.clone(),
@@ -516,7 +604,13 @@ pub fn apply(b: &mut Builder, op: &Op, uid: &mut usize, ctx: &Arc<Ctx>) {
             let my = *uid;
             *uid += 1;
             let deps: Vec<&str> = s.deps.iter().map(|d| d.as_str()).collect();
-            b.add(mk_sys(s, my, ctx), &s.name, &deps);
+            if my % 3 == 1 {
+                let mut sys = mk_sys(s, my, ctx);
+                sys.acc.data_setup = Some((ctx.clone(), my));
+                b.add(LogSys2(sys), &s.name, &deps);
+            } else {
+                b.add(mk_sys(s, my, ctx), &s.name, &deps);
+            }
         }
         Op::Tl(s) => {
             let my = *uid;
@@ -541,7 +635,17 @@ pub fn apply(b: &mut Builder, op: &Op, uid: &mut usize, ctx: &Arc<Ctx>) {
             for o in ops {
                 apply(&mut inner, o, uid, ctx);
             }
-            b.add_thread_local(NestSys { uid: my, ctx: ctx.clone(), d: inner.build() });
+            // a nested dispatcher without thread-local systems goes in as a SendDispatcher (every other time)
+            let built = inner.build();
+            let d = if my % 2 == 0 {
+                match built.try_into_sendable() {
+                    Ok(s) => Nested::Sendable(s),
+                    Err(d) => Nested::Full(d),
+                }
+            } else {
+                Nested::Full(built)
+            };
+            b.add_thread_local(NestSys { uid: my, ctx: ctx.clone(), d });
         }
         Op::Batch(bs) => {
             let my = *uid;
